@@ -190,7 +190,9 @@ def step (C : Cfg) (w : World) : Op → Except Err World
   | .serialize id => do
     let e ← getUsable w id
     match e.obj with
-    | .table _ => .ok w
+    | .table t =>
+      let (_, h) ← runM w (Theta.serializeCompact t)
+      okW w h w.objs
     | .kll s =>
       let (_, h) ← runM w (Kll.serialize s)
       okW w h w.objs
